@@ -295,8 +295,12 @@ pub enum HMode {
     PairBin,
     /// hash = (tag % 5) << 40: five hash values shared by all keys, all in bin 0 of every table
     FewHigh,
+    /// hash = tag << 4: every key in bin 0 of a 16-bin table, and consecutive tags differ in the
+    /// bits that split that bin at every later doubling (long list bins of small tables whose
+    /// nodes go to both halves)
+    Shift4,
 }
-pub const ALL_HMODES: [HMode; 9] = [
+pub const ALL_HMODES: [HMode; 10] = [
     HMode::Identity,
     HMode::Const0,
     HMode::ConstMax,
@@ -306,6 +310,7 @@ pub const ALL_HMODES: [HMode; 9] = [
     HMode::Mix,
     HMode::PairBin,
     HMode::FewHigh,
+    HMode::Shift4,
 ];
 impl HMode {
     pub fn hash_tag(self, tag: u32) -> u64 {
@@ -319,6 +324,7 @@ impl HMode {
             HMode::Mod4 => a % 4,
             HMode::PairBin => ((a >> 1) << 8) | 5,
             HMode::FewHigh => (a % 5) << 40,
+            HMode::Shift4 => a << 4,
             HMode::Mix => {
                 let mut z = a.wrapping_add(0x9e37_79b9_7f4a_7c15);
                 z = (z ^ (z >> 30)).wrapping_mul(0xbf58_476d_1ce4_e5b9);
